@@ -22,6 +22,8 @@ func init() {
 			"NOT decided: 'succeeds exactly when the device reaches a shell prompt' as a statement over dialogues, segmentations and banner texts (regular-expression matching on run-time data).",
 		Assumptions: []string{"regexp matching is opaque; prompt patterns are the configured ones"},
 		Mutants: []Mutant{
+			{ID: "C10-scan-fresh-only", Desc: "ssh client messages looked for in the latest read only", Rule: "C10/scan-accumulated",
+				Edits: []Edit{{File: "channel/auth.go", Old: "err = c.sshMessageHandler(b)", New: "err = c.sshMessageHandler(nb)"}}},
 			{ID: "C10-retry-bound-3", Desc: "password retry bound 3", Rule: "C10/at-most-twice",
 				Edits: []Edit{{File: "channel/auth.go", Old: "\tpasswordSeenMax   = 2", New: "\tpasswordSeenMax   = 3"}}},
 			{ID: "C10-username-gets-password", Desc: "telnet answers the user-name prompt with the password", Rule: "C10/credential-prompt",
@@ -112,8 +114,10 @@ func runC10(c *Ctx, r *Report) {
 	r.Rule("C10/at-most-twice", "each credential write is dominated by the false edge of count > 2 for a counter incremented once per matched prompt; the true edge returns ErrAuthError", 4)
 	r.Rule("C10/success-first", "a shell prompt match returns success with the bytes read and is tested before any credential prompt", 2)
 	r.Rule("C10/classes", "every non-nil result of the ssh message handler wraps ErrConnectionError", 1)
-	r.Rule("C10/cleanup-requeue", "Open closes the channel on every error after the transport opened and requeues the bytes the login consumed", 2)
+	r.Rule("C10/cleanup-requeue", "Open closes the channel on every error after the transport opened, that close reaches Transport.Close on every path, and Open requeues the bytes the login consumed", 3)
 
+	r.Rule("C10/scan-accumulated", "prompt patterns and the ssh client message scan are applied to everything read since the last answer, never to the latest read alone", 7)
+	checkAuthScanAccumulated(c, r)
 	war := c.LookupFunc("channel", "Channel", "WriteAndReturn")
 	if war == nil {
 		r.Anchor("C10/credential-prompt", "(*channel.Channel).WriteAndReturn")
@@ -414,6 +418,17 @@ func checkOpenCleanup(c *Ctx, r *Report) {
 	}
 	r.Check(okDefer, rule, "Open closes the channel on failure", c.Pos(open.Pos()), "deferred Close under reterr != nil, installed after the transport opened and before the reader starts",
 		"Channel.Open does not unconditionally close the channel (and transport) when it returns an error after the transport was opened: a failed login leaves the transport / ssh child / reader goroutine behind")
+	// the channel close that the failure path relies on closes the transport whatever state the reader is in
+	if tClose := c.LookupFunc("transport", "Transport", "Close"); tClose == nil {
+		r.Anchor(rule, "(*transport.Transport).Close")
+	} else if ret, rr := mustCallBeforeReturn(c, chClose, func(in ssa.Instruction) bool {
+		ci, ok := in.(*ssa.Call)
+		return ok && ci.Call.StaticCallee() == tClose
+	}); ret != nil {
+		r.Bad(rule, "Channel.Close closes the transport on every path", c.Pos(ret.Pos()), "Channel.Close can return without closing the transport (e.g. when the reader already exited because the device hung up during login): the failed Open leaves the socket / ssh child open", rr.witness(c, ret)...)
+	} else {
+		r.OK(rule, "Channel.Close closes the transport on every path", c.Pos(chClose.Pos()), "every return is preceded by Transport.Close")
+	}
 	// requeue
 	okRq := false
 	for _, ci := range staticCallsTo(open, requeue) {
